@@ -248,7 +248,7 @@ def judgeBlock (tl : List String) (cr : List (Nat × List String)) (warns : List
     | none => v := v.merge { layout := some "unitcross" }
     | some ts =>
       let ts := ts.filter (· != "│")
-      let want := [unitRec.getD (startCol exp) ""] ++ (if exp > 0 then ["vs", "base"] else [])
+      let want := ([unitRec.getD (startCol exp) ""] ++ (if exp > 0 then ["vs", "base"] else [])).filter (· != "")
       if ts != want then v := v.merge (failAgree s!"unit:{exp}")
   -- rows
   let trows := tl.takeWhile fun s => !(s.toList.headD ' ' |> isSuper)
